@@ -237,6 +237,10 @@ func c08Random(w *mon.W, idx int) {
 		s = string(gen.ZooBytes(r, 300+r.Intn(900))) // long strings: byte/word index arithmetic far from 0
 		w.Bucket("len>=300")
 	}
+	if idx%10 == 3 {
+		s = string(gen.PeriodicBytes(r)) // a short chunk repeated 16-45 times (periods 1..16)
+		w.Bucket("string/periodic")
+	}
 	for _, n := range c08Widths {
 		if !c08CheckStr(w, n, s) {
 			return
